@@ -388,6 +388,24 @@ def _rest(db, rep):
     else:
         r4.violation('functionArgs', TA, 'declared arguments are filled in %s' % sorted(writers))
 
+    # the argument records are read by index into localVars: the copy must happen before the body is checked, because checking the body can
+    # remove closed local variables (ClearLocalVariables in the type deduction of a recursion) and shift the indices
+    fd = [f for f in db.methods_of(TA) if f.name.endswith('::ViFunctionDefinition') and f.has_cfg()]
+    if fd:
+        f = fd[0]
+        fills = [f.position_of(n) for n in f.calls() if n['k'] == 'CXXMemberCallExpr' and 'obj' in n and f.strip(f.stmts[n['obj']]).get('member') == 'functionArgs'
+                 and (n.get('cs') or '').split('::')[-1] in ('emplace_back', 'push_back')]
+        body = [f.position_of(n) for n in f.calls() if (n.get('cs') or '').split('::')[-1] in ('ChildType', 'VisitChild') and len(n.get('args', [])) >= 2
+                and f.strip(f.stmts[n['args'][1]]).get('cv', f.strip(f.stmts[n['args'][1]]).get('txt')) in (1, '1')]
+        fills = [p for p in fills if p is not None]
+        body = [p for p in body if p is not None]
+        if not fills or not body:
+            r4.broken('ViFunctionDefinition: argument copy or body check not recognised')
+        elif any(p in f.reach(b) for b in body for p in fills):
+            r4.violation('functionArgs:before-body', '%s:%d' % (f.file, f.line), 'the declared arguments are copied (by index into localVars) after the body was checked: a recursion in the body clears closed local variables and the indices then denote other variables - the reported argument list is shifted')
+        else:
+            r4.ok('functionArgs:before-body', 'arguments are copied before the body is checked', '%s:%d' % (f.file, f.line))
+
     # ------------------------------------------------------------------ r5
     r5 = rep.rule('r5', 'KINDS: CstType predicate tables partition the kinds consistently and CheckConstituenta enforces base/empty, callable/arguments, logical/typed', 4)
     _kinds(db, r5)
